@@ -347,6 +347,13 @@ def passes(ctx, facts):
                     a = str(flow.expr_of(tb, t["args"][0])) + str(flow.expr_of(tb, t["args"][1]))
                     if a.count("ZERO") >= 2:
                         zero_ok = True
+    if not zero_ok:
+        # `Replicated::<OV>::ZERO` is the same value (both components ZERO)
+        for tb in facts.tree("protocol::dp::apply_laplace_noise_pass"):
+            if tb.kind == "Closure":
+                r_ = str(flow.expr_of(tb, {"cp": [0]}, max_depth=6))
+                if re.search(r"AdditiveShare<.*>::ZERO|SharedValue::ZERO|additive_share.*ZERO", r_) and "('const'" in r_ and "sample_shares" not in r_:
+                    zero_ok = True
     ctx.ob("WIRE-passes", "excluded-helper-zero", zero_ok, "the excluded helper contributes zero shares", site_of(lb))
 
 
@@ -921,6 +928,12 @@ def padding_counts(ctx, facts):
             tk = flow.find_calls(b, re.compile(r"Iterator::take$"))
             inner = [x for x in facts.tree(root) if x.kind == "Closure" and flow.find_calls(x, re.compile(r"iter::repeat_n$"))]
             okr = len(tk) == 1 and "OPRFPaddingDp::sample" in str(flow.expr_of(b, tk[0][1]["args"][1], max_depth=6)) and len(inner) == 1 and flow.expr_of(inner[0], flow.find_calls(inner[0], re.compile(r"iter::repeat_n$"))[0][1]["args"][1], max_depth=4)[-1][0] == "upvar"
+            if not tk and len(inner) == 1:
+                # `(0..sample).flat_map(|_| repeat_n(row, cardinality))`: `sample` groups, the same count
+                fm = flow.find_calls(b, re.compile(r"Iterator::flat_map$"))
+                if len(fm) == 1:
+                    src_ = flow.strip_casts(flow.expr_of(b, fm[0][1]["args"][0], max_depth=8))
+                    okr = src_[0] == "agg" and src_[1] == ("std::ops::Range", "Range") and src_[2][0] == ("const", 0) and "OPRFPaddingDp::sample" in str(src_[2][1]) and flow.expr_of(inner[0], flow.find_calls(inner[0], re.compile(r"iter::repeat_n$"))[0][1]["args"][1], max_depth=4)[-1][0] == "upvar"
             ctx.ob("COUNT-padding", "oprf:total=rows", okt and okr, "total += sample * cardinality; rows: take(sample) x repeat_n(cardinality)" if okt and okr else "the announced number of dummy rows is not sample * cardinality, or the rows appended are not `sample` groups of `cardinality` copies: the helpers' tables differ in length", site_of(b))
         else:
             okl = len(its) == 2 and all(x[0] == "agg" and x[1] == ("std::ops::Range", "Range") and x[2][0] == ("const", 0) for x in its)
